@@ -445,6 +445,19 @@ _TEXT = st.text(st.one_of(
     max_size=60)
 
 
+# characters that codecs, JSON layers and text APIs like to treat specially:
+# they are ordinary characters of a protocol string and must survive in
+# any position (a BOM-stripping or whitespace-stripping decoder drops them)
+SPECIAL_CHARS = ['\ufeff', '\x00', '\ufffd', '\u2028', '\u2029', '\x85',
+                 '\r', '\n', '\t', ' ', '\ufffe', '\uffff', '\u200b',
+                 '\ud7ff', '\ue000', '\\', '"', '\x7f', '\xa0']
+_SPECIAL_TEXT = st.tuples(
+    st.lists(st.sampled_from(SPECIAL_CHARS), max_size=2).map(''.join),
+    _TEXT.map(lambda s: s[:5]),
+    st.lists(st.sampled_from(SPECIAL_CHARS), max_size=2).map(''.join),
+    _TEXT.map(lambda s: s[:3])).map(''.join)
+
+
 def _sized_text(n):
     """text whose UTF-8 length is exactly n (pad with ASCII)."""
     def fix(s):
@@ -486,8 +499,9 @@ def value_strategy(spec, small=False):
              float('nan'), 0.1]))
     if n == 'String':
         if small:
-            return _TEXT.map(lambda s: s[:6])
-        return st.one_of(_TEXT, st.sampled_from(
+            return st.one_of(_TEXT.map(lambda s: s[:6]),
+                             _SPECIAL_TEXT.map(lambda s: s[:6]))
+        return st.one_of(_TEXT, _SPECIAL_TEXT, st.sampled_from(
             [126, 127, 128, 129, 300]).flatmap(_sized_text))
     if n == 'UUID':
         return st.one_of(
@@ -637,7 +651,10 @@ def t_boundaries(ctx):
                    '\U00010000', '\U0010ffff', 'x' * 127, 'x' * 128,
                    'é' * 64, 'é' * 63 + 'x', '世' * 5461 + 'x',
                    'x' * 16383, 'x' * 16384, '\U0001f600' * 4096,
-                   'x' * 40000],
+                   'x' * 40000] + SPECIAL_CHARS +
+        [c + 'abc' for c in SPECIAL_CHARS] +
+        ['abc' + c for c in SPECIAL_CHARS] +
+        ['a' + c + 'b' for c in SPECIAL_CHARS] + ['\ufeff\ufeffx'],
         'UUID': ['00000000-0000-0000-0000-000000000000',
                  'ffffffff-ffff-ffff-ffff-ffffffffffff',
                  '12345678-1234-5678-1234-567812345678'],
